@@ -259,6 +259,12 @@ def to_model(data_file: typing.IO, _config = None, progress_callback=lambda _: N
     if state in (_State.TEXT, _State.TEXT_MORE):
 
       if line is None or _EMPTY_RE.fullmatch(line):
+
+        if state is _State.TEXT:
+          LOGGER.warning("Subtitle without text at line %s", line_index)
+          state = _State.COUNTER
+          continue
+
         subtitle_text = subtitle_text.strip('\r\n')\
           .replace("\r\n", "\n")
         subtitle_text = _BRACE_TAG_RE.sub(r"<\1>", subtitle_text)
